@@ -1131,7 +1131,9 @@ impl World {
                             sv != 0 && number < sv
                         });
                         let want_bad = parts[0] == "commit_immature";
-                        if in_win && live && locked == want_bad {
+                        let deps_ok = t.tx.cell_deps().into_iter().all(|d| cells.contains_key(&d.out_point()))
+                            && t.tx.header_deps().into_iter().all(|h| self.by_hash.get(&h).map(|i| pst.chain.get(self.blocks[*i].number as usize) == Some(i)).unwrap_or(false));
+                        if in_win && live && deps_ok && locked == want_bad {
                             for i in t.tx.inputs().into_iter() {
                                 cells.remove(&i.previous_output());
                             }
